@@ -1236,6 +1236,39 @@ func OnAllWays(b *ssa.BasicBlock, want func([]Fact) bool, depth int) bool {
 			return true
 		}
 	}
+	// the same for a value of an enumeration a helper computed: `switch classify(x) { case A:` - split over the
+	// inputs of the phi that are the constant A (or not constant at all)
+	for _, f := range facts {
+		bo, ok := f.Cond.(*ssa.BinOp)
+		if !ok || bo.Op != token.EQL || !f.Pol {
+			continue
+		}
+		ph, isPhi := bo.X.(*ssa.Phi)
+		k, isK := bo.Y.(*ssa.Const)
+		if !isPhi || !isK || k.Value == nil {
+			continue
+		}
+		n, all := 0, true
+		for i, e := range ph.Edges {
+			if ek, isC := e.(*ssa.Const); isC {
+				if ek.Value == nil || ek.Value.ExactString() != k.Value.ExactString() {
+					continue
+				}
+			}
+			n++
+			pred := ph.Block().Preds[i]
+			if ph.Block().Dominates(pred) {
+				all = false
+				break
+			}
+			if !want(append(append([]Fact{}, facts...), EdgeFacts(pred, ph.Block())...)) && !onAllWaysEdge(pred, ph.Block(), want, depth+1) {
+				all = false
+			}
+		}
+		if n > 0 && all {
+			return true
+		}
+	}
 	if len(b.Preds) == 0 {
 		return false
 	}
